@@ -50,7 +50,7 @@ type vxC13Policy struct {
 	Levels  []int  `json:"levels,omitempty"`  // down: ConsistencyLevelsToTry
 	Attempt []bool `json:"attempt,omitempty"` // table: Attempt(q) = Attempt[q.Attempts()-1] (false beyond)
 	Types   []int  `json:"types,omitempty"`   // table: i-th GetRetryType call returns Types[i] (Rethrow beyond)
-	Via     string `json:"via"`               // query | cluster
+	Via     string `json:"via"`               // query | cluster | override (a cluster-wide SimpleRetryPolicy{6} that the statement replaces, possibly by nil)
 }
 
 type vxC13Spec struct {
@@ -245,7 +245,7 @@ func vxC13Draw(t *rapid.T, forceSpec bool) *vxC13Case {
 		c.Spec.DelayMs = 1
 	}
 	c.Policy.Kind = rapid.SampledFrom([]string{"table", "simple", "down", "expo", "table", "simple", "down", "table", "simple", "down", "nil", "table"}).Draw(t, "policy")
-	c.Policy.Via = rapid.SampledFrom([]string{"query", "query", "cluster"}).Draw(t, "policy_via")
+	c.Policy.Via = rapid.SampledFrom([]string{"query", "query", "cluster", "override"}).Draw(t, "policy_via")
 	switch c.Policy.Kind {
 	case "simple", "expo":
 		c.Policy.N = rapid.SampledFrom([]int{2, 1, 3, 2, 1, 3, 0}).Draw(t, "numretries")
@@ -985,6 +985,10 @@ func vxC13Execute(c *vxC13Case, timeoutScale int) (*vxC13Obs, error) {
 		if c.Policy.Via == "cluster" {
 			cfg.RetryPolicy = rp
 		}
+		if c.Policy.Via == "override" {
+			// a cluster-wide default that the statement overrides (with nil: "no retries")
+			cfg.RetryPolicy = &SimpleRetryPolicy{NumRetries: 6}
+		}
 		if !c.Batch && c.IdemVia == "cluster" {
 			cfg.DefaultIdempotence = c.Idem
 		}
@@ -1057,7 +1061,7 @@ func vxC13Execute(c *vxC13Case, timeoutScale int) (*vxC13Obs, error) {
 		for i, idem := range c.BatchIdem {
 			b.Entries = append(b.Entries, BatchEntry{Stmt: "LIST tok" + itoa(i), Idempotent: idem})
 		}
-		if c.Policy.Via == "query" {
+		if c.Policy.Via == "query" || c.Policy.Via == "override" {
 			b.RetryPolicy(rp)
 		}
 		if sp != nil {
@@ -1073,7 +1077,7 @@ func vxC13Execute(c *vxC13Case, timeoutScale int) (*vxC13Obs, error) {
 		if c.IdemVia == "query" {
 			q.Idempotent(c.Idem)
 		}
-		if c.Policy.Via == "query" {
+		if c.Policy.Via == "query" || c.Policy.Via == "override" {
 			q.RetryPolicy(rp)
 		}
 		if sp != nil {
